@@ -55,3 +55,16 @@ CHECKS["C14"] = dict(
     note=("Bounds: 3 classes, 2-3 methods, 1-2 positions, shapes sampled (quick 1600, thorough ~19000 of 480k). Inherits the recorded finding "
           "C02-integer-levels through the same mechanism-level exclusion. Trusted: z3, stubs (validated by native replay per shape)."),
 )
+
+CHECKS["C07"] = dict(
+    engine="symx", category="model_checking", design_ref="DESIGN.md §6 C07",
+    technique="symbolic execution of the real call_next / f.next continuation lookup over a symbolic class hierarchy and priorities (z3); step-wise closed-form oracle along the logged chain",
+    text=("Method sets in which any subset of the methods delegate (call_next with the same arguments, f.next, call_next with an instance of another "
+          "class; plain functions and methods with self) are run once per class of (hierarchy, priorities) the real code cannot distinguish. The logged "
+          "chain of entered methods is compared step by step, by an UNSAT query, with the documented meaning: the next method is the rule's winner among "
+          "the applicable methods the caller beats; 'No method' iff that set is empty, 'Ambiguous' iff it has no winner; a caller not applicable to the "
+          "forwarded arguments behaves like a fresh call; no method is visited twice."),
+    note=("Bounds: 3 classes (4 in the four-method family), 3-4 methods, 1-2 positions; shapes sampled in the quick tier (610 of 8.5k), all in thorough. "
+          "Don't-care: caller tied with another applicable method for the forwarded arguments. Recorded findings excluded by mechanism-level predicates: "
+          "C02-integer-levels (per step), C07-fnext-drops-self, C07-upper-rank-tie. Variants/mixins supplying part of the chain are exercised by C08/C16."),
+)
